@@ -230,3 +230,109 @@ def check_ids(df, rec, case=None, tag=''):
                           case=case)
             return False
     return True
+
+
+# ----------------------------------------------------------------------------- edit distance
+
+class EditView(object):
+    """Model view for edit_distance_join: present strings, q-gram bags, cached distance matrix."""
+
+    def __init__(self, call):
+        self.view = TableView(call, bag=True)
+        self.dist = {}
+
+    def distance(self, i, j):
+        d = self.dist.get((i, j))
+        if d is None:
+            d = model.levenshtein(self.view.lvals[i], self.view.rvals[j])
+            self.dist[(i, j)] = d
+        return d
+
+    def retokenize(self, call):
+        v = TableView(call, bag=True)
+        self.view = v
+
+
+def check_edit_join(df, call, rec, decide, ev, case=None, tag=''):
+    """decide ⊆ {'sound','once','score','keys','complete','missing'}"""
+    view = ev.view
+    op = call.get('comp_op', '<=')
+    fn = model.OPS[op]
+    k = call['threshold']
+    allow_missing = call.get('allow_missing', False)
+    want_score = call.get('out_sim_score', True) and '_sim_score' in df.columns
+    rows = result_pairs(df, call, view)
+    stats = Counter()
+    seen = Counter()
+    for (i, j, score, lk, rk) in rows:
+        if i is None or j is None:
+            if 'keys' in decide:
+                rec.violation('keys', '%soutput row names unknown key pair (%r, %r)' % (tag, lk, rk),
+                              case=case)
+            continue
+        seen[(i, j)] += 1
+    if 'once' in decide:
+        for (i, j), n in seen.items():
+            if n > 1:
+                rec.violation('once', '%skey pair (%r, %r) occurs %d times' %
+                              (tag, view.lkeys[i], view.rkeys[j], n), case=case)
+    miss = view.missing_pairs()
+    for (i, j, score, lk, rk) in rows:
+        if i is None or j is None:
+            continue
+        if (i, j) in miss:
+            stats['rows_missing'] += 1
+            if 'missing' in decide:
+                if not allow_missing:
+                    rec.violation('missing', '%sallow_missing=False but pair (%r, %r) with a missing '
+                                  'value is in the output' % (tag, lk, rk), case=case)
+                elif want_score and not model.is_missing(score):
+                    rec.violation('missing', '%smissing-value pair (%r, %r) has score %r, not NaN'
+                                  % (tag, lk, rk, score), case=case)
+            continue
+        d = ev.distance(i, j)
+        stats['rows_checked'] += 1
+        if not fn(d, k) and 'sound' in decide:
+            rec.violation('sound', '%spair (%r, %r) returned but levenshtein(%r, %r)=%d does not '
+                          'satisfy %s %r' % (tag, lk, rk, view.lvals[i], view.rvals[j], d, op, k),
+                          case=case)
+        if want_score and 'score' in decide and not _same_number(score, d):
+            rec.violation('score', '%spair (%r, %r): _sim_score %r but levenshtein(%r, %r)=%d'
+                          % (tag, lk, rk, score, view.lvals[i], view.rvals[j], d), case=case)
+    if 'complete' in decide:
+        kk = int(k)
+        for i, lt in enumerate(view.ltoks):
+            if lt is None:
+                continue
+            ls = view.lvals[i]
+            lset = set(lt)
+            for j, rt in enumerate(view.rtoks):
+                if rt is None:
+                    continue
+                rs = view.rvals[j]
+                if abs(len(ls) - len(rs)) > kk:
+                    continue
+                d = ev.distance(i, j)
+                if not fn(d, k):
+                    continue
+                stats['within'] += 1
+                if lset.isdisjoint(rt):
+                    stats['within_no_common_qgram'] += 1      # the documented gap
+                    if (i, j) in seen:
+                        stats['gap_pairs_returned_anyway'] += 1
+                    continue
+                stats['required'] += 1
+                if (i, j) not in seen:
+                    rec.violation('complete', '%squalifying pair (%r, %r) missing: levenshtein(%r, %r)'
+                                  '=%d satisfies %s %r and the q-gram bags intersect (%s)'
+                                  % (tag, view.lkeys[i], view.rkeys[j], ls, rs, d, op, k,
+                                     sorted(lset & set(rt))[:3]), case=case,
+                                  witness={'l': ls, 'r': rs, 'd': d})
+    if 'missing' in decide and allow_missing:
+        for (i, j) in miss:
+            stats['missing_pairs'] += 1
+            if seen.get((i, j), 0) != 1:
+                rec.violation('missing', '%sallow_missing=True: pair (%r, %r) with a missing value '
+                              'occurs %d times, expected once' % (
+                                  tag, view.lkeys[i], view.rkeys[j], seen.get((i, j), 0)), case=case)
+    return stats
